@@ -15,7 +15,67 @@ GLUE_COMMON = [
     "Module::encode_internal (src/ir/module/mod.rs) - not under contract",
 ]
 
+V2_GENERIC = [
+    "V2_reindex.reorganise_generic.*", "V2_reindex.fn:reorganise_generic",
+    "V2_reindex.get_mapping_generic.*", "V2_reindex.fn:get_mapping_generic",
+    "V2_reindex.recalculate_ids.*", "V2_reindex.fn:recalculate_ids",
+    "V2_reindex.lemma.*", "V2_reindex.fn:lemma_*", "V2_reindex.fn:sel", "V2_reindex.fn:sel_idx",
+    "V2_reindex.LocalOrImport.is_import_is_not_local",
+]
+def v2_inst(item, cont):
+    return ["V2_reindex.fn:%s as GetID::*" % item, "V2_reindex.fn:%s as LocalOrImport::*" % item,
+            "V2_reindex.fn:%s as ReIndexable::*" % cont, "V2_reindex.fn:%s as Iter::*" % cont]
+
+ENCODE_GLUE = "Module::encode_internal (src/ir/module/mod.rs): the call sites of recalculate_ids / fix_op_id_mapping and the per-section emission loops are not under contract"
+
 PROPS = {
+    "C05": {
+        "title": "Encoding again without edits gives the same bytes",
+        "units": ["V2_reindex"],
+        "obligations": ["V2_reindex.kf.recalculate_ids.reestablishes_id_invariant",
+                        "V2_reindex.recalculate_ids.container_is_intended_order", "V2_reindex.fn:recalculate_ids",
+                        "V2_reindex.fn:lemma_reorganised_distinct"],
+        "glue": [ENCODE_GLUE, "Module::resolve_special_instrumentation driver loop (flags are resolved in place)"],
+        "design_ref": "DESIGN.md §4 V2, §5 C05",
+        "level_text": "The re-indexing core is proved to produce the intended order for all inputs; the obligation that a second encode needs (stored ids equal positions again after the call) is a separate obligation that fails on the current code and is listed as known finding F03.",
+    },
+    "C06": {
+        "title": "Function references stay bound to the same function across edits",
+        "units": ["V2_reindex", "V3_remap"],
+        "obligations": V2_GENERIC + v2_inst("Function", "Functions") + [
+            "V3_remap.refers_to_func.*", "V3_remap.fn:refers_to_func", "V3_remap.update_fn_instr.*", "V3_remap.fn:update_fn_instr",
+            "V3_remap.fix_op_id_mapping.*", "V3_remap.fn:fix_op_id_mapping", "V3_remap.InitInstr.*", "V3_remap.fn:InitInstr::fix_id_mapping",
+            "V3_remap.fn:lemma_families_disjoint"],
+        "glue": [ENCODE_GLUE, "export / start / element-segment remapping lines in encode_internal", "'output validates' (wasmparser validator) is not decided"],
+        "design_ref": "DESIGN.md §4 V2 V3, §5 C06",
+    },
+    "C07": {
+        "title": "Global references stay bound to the same global across edits",
+        "units": ["V2_reindex", "V3_remap"],
+        "obligations": V2_GENERIC + v2_inst("Global", "ModuleGlobals") + [
+            "V3_remap.refers_to_global.*", "V3_remap.fn:refers_to_global", "V3_remap.update_global_instr.*", "V3_remap.fn:update_global_instr",
+            "V3_remap.fix_op_id_mapping.*", "V3_remap.fn:fix_op_id_mapping", "V3_remap.InitInstr.*", "V3_remap.fn:InitInstr::fix_id_mapping"],
+        "glue": [ENCODE_GLUE, "global export emission; table/element constant expressions", "'output validates' is not decided"],
+        "design_ref": "DESIGN.md §4 V2 V3, §5 C07",
+    },
+    "C08": {
+        "title": "Memory references stay bound to the same memory across edits",
+        "units": ["V2_reindex", "V3_remap"],
+        "obligations": V2_GENERIC + v2_inst("Memory", "Memories") + [
+            "V3_remap.refers_to_memory.*", "V3_remap.fn:refers_to_memory", "V3_remap.update_memory_instr.*", "V3_remap.fn:update_memory_instr",
+            "V3_remap.fix_op_id_mapping.*", "V3_remap.fn:fix_op_id_mapping"],
+        "glue": [ENCODE_GLUE, "data-segment memory index and memory export lines in encode_internal", "'output validates' is not decided"],
+        "design_ref": "DESIGN.md §4 V2 V3, §5 C08",
+    },
+    "C09": {
+        "title": "Deletion removes exactly the deleted entity",
+        "units": ["V2_reindex", "V3_remap"],
+        "obligations": V2_GENERIC + v2_inst("Function", "Functions") + v2_inst("Global", "ModuleGlobals") + v2_inst("Memory", "Memories") + [
+            "V3_remap.update_*_instr.*", "V3_remap.fn:update_*_instr", "V3_remap.fn:InitInstr::fix_id_mapping"],
+        "glue": [ENCODE_GLUE, "ModuleExports::delete / ModuleImports::delete flags are honoured by emission loops in encode_internal",
+                 "'fails loudly': update_* are proved panic-free exactly when every referenced id has an image; the converse (a missing image panics rather than writing an index) is by inspection of the three `None => panic!` arms"],
+        "design_ref": "DESIGN.md §4 V2 V3, §5 C09",
+    },
     "C14": {
         "title": "Added locals get fresh indices of the requested type",
         "units": ["V1_locals"],
